@@ -45,14 +45,26 @@ Definition value_eqb (eqn : num -> num -> bool) (a b : value) : bool :=
   | _, _ => false
   end.
 
-Definition cell_consistent_b (eqn : num -> num -> bool) (cont : cref -> content (num:=num)) (c : cref) : bool :=
+(* a plain formula cell holds what its formula produces over the stored values; an array
+   formula (CSE or dynamic) is consistent when writing what its formula produces over the
+   stored values through the sink changes no value of [cells] (anchor and spill cells) *)
+Definition cell_consistent_b (eqn : num -> num -> bool) (cont : cref -> content (num:=num)) (cells : list cref) (c : cref) : bool :=
   match cont c with
   | CFormula f v =>
       value_eqb eqn (of_fvalue v)
                 (of_fvalue (sink_plain (result_of N (fun d => get_cell_value (cont d)) c f)))
+  | CArrayFormula _ _ _ f _ =>
+      let st := mkstore cont (fun _ => None) false in
+      match write N c (cont c) (result_of N (fun d => get_cell_value (cont d)) c f) st with
+      | Some st' => forallb (fun d => value_eqb eqn (value_at st' d) (value_at st d)) cells
+      | None => false
+      end
   | _ => true
   end.
+(* [check]: the cells whose consistency is asked; [cells]: every cell of the workbook *)
+Definition values_consistent_in_b (eqn : num -> num -> bool) (cont : cref -> content (num:=num)) (cells check : list cref) : bool :=
+  forallb (cell_consistent_b eqn cont cells) check.
 Definition values_consistent_b (eqn : num -> num -> bool) (cont : cref -> content (num:=num)) (cells : list cref) : bool :=
-  forallb (cell_consistent_b eqn cont) cells.
+  values_consistent_in_b eqn cont cells cells.
 
 End Denote.
